@@ -1200,6 +1200,52 @@ fn case_big_chunk(out: &mut Out, which: u64) {
     });
 }
 
+// ------------------------------------------------------------------------------------------- sinks
+/// LimitingSink / CountingSink / MaterializingSink fed chunk by chunk
+fn case_sinks(r: &mut Rng, out: &mut Out, forced: Option<(usize, Vec<Vec<Row>>)>) {
+    use grafeo_core::execution::{CountingSink, LimitingSink};
+    let corpus = forced.is_some();
+    let (limit, cs) = match forced {
+        Some(x) => x,
+        None => {
+            let n = gen_size(r, 20);
+            let (rows, _) = gen_table(r, n);
+            let limit = match r.below(5) {
+                0 => 0,
+                1 => n,
+                2 => n + 1,
+                _ => r.below(n as u64 + 2) as usize,
+            };
+            (limit, gen_chunking(r, &rows))
+        }
+    };
+    let all = flat(&cs);
+    let mut sink = LimitingSink::new(limit);
+    let mut count = CountingSink::new();
+    let mut answers = vec![];
+    for c in &cs {
+        answers.push(sink.consume(to_chunk(c, 3)).unwrap());
+        count.consume(to_chunk(c, 3)).unwrap();
+    }
+    let reported = sink.row_count();
+    let kept = rows_of_chunks(sink.chunks());
+    let want: Vec<Row> = all.iter().take(limit).cloned().collect();
+    let good = flat(&kept) == want && reported == want.len() && count.count() == all.len();
+    out.emit(&Case {
+        kind: "limiting_sink".into(),
+        input: format!("limit={} chunks={:?}", limit, cs),
+        coq: Some(format!("chk_lsink {} {} {} {}", coq::z(limit as i64), coq_chunks(&cs), coq_chunks(&kept), coq::list(answers.iter().map(|b| b.to_string())))),
+        oracle: ok_or(good),
+        msg: if good { String::new() } else { format!("LimitingSink({}) kept {} rows (reports {}), expected the first {}", limit, flat(&kept).len(), reported, want.len()) },
+        kid: if good { None } else { Some("C17-K10".into()) },
+        kcoq: if good { None } else { Some(format!("k_lsink {} {}", coq::z(limit as i64), coq_chunks(&cs))) },
+        nontrivial: cs.len() >= 2 && limit > 0 && limit < all.len(),
+        imp: format!("kept={:?} answers={:?} reported={}", kept, answers, reported),
+        tags: vec![if corpus { "corpus".into() } else { "generated".into() }],
+        ..Default::default()
+    });
+}
+
 // ---------------------------------------------------------------------------------------- Pipeline
 struct CountingSource {
     inner: VectorSource,
@@ -1479,6 +1525,7 @@ fn case_parallel(r: &mut Rng, out: &mut Out, cnt: i64, which: u64) {
     };
     let cols: Vec<Vec<Value>> = (0..2).map(|c| rows.iter().map(|x| x[c].clone()).collect()).collect();
     let use_chunks = r.chance(1, 3);
+    let mut use_triples = false;
     let source: Arc<dyn par::ParallelSource> = if use_chunks {
         // ParallelChunkSource over a random chunking with empty chunks in between
         let mut cs = vec![];
@@ -1493,9 +1540,15 @@ fn case_parallel(r: &mut Rng, out: &mut Out, cnt: i64, which: u64) {
             i = e;
         }
         Arc::new(par::ParallelChunkSource::new(cs))
+    } else if r.chance(1, 4) {
+        // ParallelTripleScanSource: (subject, predicate, object) = (id, key, 7)
+        use_triples = true;
+        Arc::new(par::ParallelTripleScanSource::new(rows.iter().map(|x| (x[0].clone(), x[1].clone(), Value::Int64(7))).collect(), vec!["s".into(), "p".into(), "o".into()]))
     } else {
         Arc::new(par::ParallelVectorSource::new(cols))
     };
+    // the triple source has a third column
+    let vrows: Vec<Row> = if use_triples { vrows.iter().map(|x| vec![x[0].clone(), x[1].clone(), V::Int(7)]).collect() } else { vrows };
     let mut factory = par::CloneableOperatorFactory::new();
     for o in &ops {
         let o = o.clone();
@@ -1515,7 +1568,7 @@ fn case_parallel(r: &mut Rng, out: &mut Out, cnt: i64, which: u64) {
         format!("par:morsel={}", msize),
         format!("par:morsels={}", nm.min(5)),
         format!("par:chain={}", which),
-        (if use_chunks { "par:chunk-source" } else { "par:vector-source" }).to_string(),
+        (if use_chunks { "par:chunk-source" } else if use_triples { "par:triple-source" } else { "par:vector-source" }).to_string(),
     ];
     let base = res.morsels_processed == nm && res.rows_processed == cnt as usize;
     let id = |x: &Row| if let V::Int(i) = x[0] { i } else { -1 };
@@ -1908,46 +1961,94 @@ fn case_partition(r: &mut Rng, out: &mut Out, dir: &str) {
     });
 }
 
-/// spilling GROUP BY against the in-memory GROUP BY
+/// GROUP BY / global aggregates: the in-memory AggregatePushOperator and the spilling
+/// SpillableAggregatePushOperator against the model (Accum.group_by / global_agg) and against each other
 fn case_spill_agg(r: &mut Rng, out: &mut Out, dir: &str) {
     let n = gen_size(r, 60);
     let kind = 1 + r.below(4) as u8;
     let dom = *r.pick(&[2u64, 6, 40]);
-    let rows: Vec<Row> = (0..n).map(|_| vec![gen_val(r, kind, dom, 10), gen_val(r, 2, 20, 15), V::Null]).collect();
+    let vkind = *r.pick(&[2u8, 2, 3, 4]);
+    let rows: Vec<Row> = (0..n).map(|_| vec![gen_val(r, kind, dom, 10), gen_val(r, vkind, 20, 15), gen_val(r, 2, 3, 20)]).collect();
     let cs = gen_chunking(r, &rows);
     let threshold = *r.pick(&[0usize, 1, 2, 5, 1000]);
-    let aggs = || vec![pu::AggregateExpr::count_star(), pu::AggregateExpr::count(1), pu::AggregateExpr::sum(1), pu::AggregateExpr::min(1), pu::AggregateExpr::max(1), pu::AggregateExpr::avg(1)];
+    // group columns: none (global aggregate), one or two
+    let gcols: Vec<usize> = match r.below(6) {
+        0 => vec![],
+        1 => vec![0, 2],
+        _ => vec![0],
+    };
+    // aggregate list: COUNT(*), COUNT, SUM, MIN, MAX, AVG over column 1 (fixed positions, AVG needs SUM and COUNT), sometimes FIRST
+    let with_first = r.chance(1, 3);
+    let aggs = || {
+        let mut v = vec![pu::AggregateExpr::count_star(), pu::AggregateExpr::count(1), pu::AggregateExpr::sum(1), pu::AggregateExpr::min(1), pu::AggregateExpr::max(1), pu::AggregateExpr::avg(1)];
+        if with_first {
+            v.push(pu::AggregateExpr { function: pu::AggregateFunction::First, column: Some(1), distinct: false });
+        }
+        v
+    };
+    let ng = gcols.len();
+    // output row -> model row: the AVG cell becomes the exact fraction (SUM cell, COUNT cell) when the float is their quotient
+    let canon = |vals: &[Value]| -> Row {
+        let mut row: Row = vec![];
+        for (i, v) in vals.iter().enumerate() {
+            if i == ng + 5 {
+                match (v, &vals[ng + 2], &vals[ng + 1]) {
+                    (Value::Null, _, _) => row.push(V::Null),
+                    (Value::Float64(a), Value::Float64(sm), Value::Int64(c)) if a.to_bits() == (sm / *c as f64).to_bits() => {
+                        row.push(from_value(&Value::Float64(*sm)));
+                        row.push(V::Int(*c));
+                    }
+                    _ => row.push(V::Str(-3)),
+                }
+            } else {
+                row.push(from_value(v));
+            }
+        }
+        row
+    };
     let run = |op: &mut dyn PushOperator| {
         let mut sink = CollectorSink::new();
         for c in &cs {
             op.push(to_chunk(c, 3), &mut sink).unwrap();
         }
         op.finalize(&mut sink).unwrap();
-        let mut v: Vec<String> = sink.chunks().iter().flat_map(|c| c.selected_indices().map(|i| format!("{:?}", (0..c.column_count()).map(|k| c.column(k).unwrap().get_value(i)).collect::<Vec<_>>())).collect::<Vec<_>>()).collect();
-        v.sort();
-        v
+        let rows: Vec<Row> = sink
+            .chunks()
+            .iter()
+            .flat_map(|c| c.selected_indices().map(|i| canon(&(0..c.column_count()).map(|k| c.column(k).unwrap().get_value(i).unwrap_or(Value::Null)).collect::<Vec<_>>())).collect::<Vec<_>>())
+            .collect();
+        rows
     };
     let mgr = Arc::new(sp::SpillManager::new(dir).unwrap());
     let spilled = {
-        let mut op = pu::SpillableAggregatePushOperator::with_spilling(vec![0], aggs(), mgr.clone(), threshold);
+        let mut op = pu::SpillableAggregatePushOperator::with_spilling(gcols.clone(), aggs(), mgr.clone(), threshold);
         run(&mut op)
     };
     let left = dir_count(dir);
     drop(mgr);
-    let mut mem = pu::AggregatePushOperator::new(vec![0], aggs());
+    let mut mem = pu::AggregatePushOperator::new(gcols.clone(), aggs());
     let inmem = run(&mut mem);
-    let good = spilled == inmem && left == 0;
-    let k8 = !good && left == 0 && hash_class(&rows.iter().map(|x| vec![x[0].clone()]).collect::<Vec<_>>()) == 1;
+    let good = same_bag(&spilled, &inmem) && left == 0;
+    let keyrows: Vec<Row> = rows.iter().map(|x| gcols.iter().map(|&c| x[c].clone()).collect()).collect();
+    let class = hash_class(&keyrows);
+    let k8 = !good && left == 0 && class == 1;
+    let mut agg_terms = vec!["(mkagg ACount (-1))".to_string(), "(mkagg ACount 1)".into(), "(mkagg ASum 1)".into(), "(mkagg AMin 1)".into(), "(mkagg AMax 1)".into(), "(mkagg AAvg 1)".into()];
+    if with_first {
+        agg_terms.push("(mkagg AFirst 1)".into());
+    }
+    let args = format!("{} {} {}", coq::list(gcols.iter().map(|&c| coq::z(c as i64))), coq::list(agg_terms.into_iter()), coq_hrows(&rows));
     out.emit(&Case {
-        kind: "spill_agg".into(),
+        kind: if gcols.is_empty() { "agg_global".into() } else { "spill_agg".into() },
         kid: if k8 { Some("C17-K8".into()) } else { None },
-        kcoq: if k8 { Some(k8_term(&rows)) } else { None },
-        input: format!("threshold={} chunks={:?}", threshold, cs),
-        oracle: ok_or(good),
+        kcoq: if k8 { Some(k8_term(&keyrows)) } else { None },
+        input: format!("group_by={:?} first={} threshold={} chunks={:?}", gcols, with_first, threshold, cs),
+        coq: Some(format!("chk_agg {} {} {}", args, coq_rows(&inmem), coq_rows(&spilled))),
+        show: Some(format!("show_agg {}", args)),
+        oracle: if class == 2 { Oracle::Na } else { ok_or(good) },
         msg: if good { String::new() } else { format!("spilling GROUP BY differs from the in-memory one or leaves files ({}): {:?} vs {:?}", left, spilled, inmem) },
         nontrivial: inmem.len() >= 2 && inmem.len() < n,
-        imp: format!("{} groups", spilled.len()),
-        tags: vec![format!("spill_agg:threshold={}", threshold)],
+        imp: format!("mem={:?} spill={:?}", inmem, spilled),
+        tags: vec![format!("spill_agg:threshold={}", threshold), format!("agg:group_cols={}", gcols.len()), format!("agg:value_kind={}", vkind), hash_tag(class)],
         ..Default::default()
     });
 }
@@ -1998,6 +2099,9 @@ fn main() {
     case_push_sel(&mut r, &mut out, 3, Some((Op::Sort(k0.clone()), vec![(t10.clone(), sel59.clone())])));
     case_push_sel(&mut r, &mut out, 4, Some((Op::Project(vec![1, 0]), vec![(t10.clone(), sel59.clone())])));
     case_push_sel(&mut r, &mut out, 0, Some((ge0.clone(), vec![(t10.clone(), (0..5).collect())])));
+    // C17-K10: LimitingSink(3) over chunks of 2 + 2 rows keeps 4 rows
+    case_sinks(&mut r, &mut out, Some((3, vec![t10[0..2].to_vec(), t10[2..4].to_vec(), t10[4..6].to_vec()])));
+    case_sinks(&mut r, &mut out, Some((4, vec![t10[0..2].to_vec(), t10[2..4].to_vec(), t10[4..6].to_vec()])));
     // C17-K6: PartitionedState cleanup / drop with partitions on disk
     case_files(&mut r, &mut out, &d, Some(vec![2, 2, 5]));
     case_files(&mut r, &mut out, &d, Some(vec![2]));
@@ -2042,6 +2146,9 @@ fn main() {
             case_push_sel(&mut r, &mut out, w, None);
         }
     }
+    for _ in 0..scale(40) {
+        case_sinks(&mut r, &mut out, None);
+    }
     for _ in 0..scale(200) {
         case_pipeline(&mut r, &mut out, None);
     }
@@ -2063,7 +2170,7 @@ fn main() {
     for _ in 0..scale(60) {
         case_partition(&mut r, &mut out, &d);
     }
-    for _ in 0..scale(30) {
+    for _ in 0..scale(90) {
         case_spill_agg(&mut r, &mut out, &d);
     }
     // the real ParallelPipeline: sizes around 0, 1, the chunk size and the morsel sizes (1024 .. 65536)
